@@ -1900,6 +1900,96 @@ where
     }
 //@@ END
 
+    // ---------------- invalidate_entries_if: the removal phase under contract, the selection expression ASSUMED ----------------
+    /// the user's predicate as a function of key and value (ASSUMED pure, like the weigher: a stateful `FnMut` is outside)
+    pub uninterp spec fn pspec<F>(f: F, k: KeyId, v: V) -> bool;
+    /// `k` is among the first `n` collected keys
+    pub open spec fn in_prefix(ks: Seq<Rc<K>>, n: int, k: KeyId) -> bool { exists|j: int| 0 <= j < n && j < ks.len() && kid_rc(#[trigger] ks[j]) == k }
+    /// ASSUMED contract of the selection expression of `invalidate_entries_if`
+    /// (`cache.iter().filter(|(key, entry)| (predicate)(key, &entry.value)).map(|(key, _)| Rc::clone(key)).collect::<Vec<_>>()`):
+    /// an iterator-adapter chain with pattern closures, which Verus rejects. The extractor replaces exactly that expression
+    /// by a call of this function (declared rewrite `absexpr`, tied to the expression's token hash): the chain is NOT verified.
+    #[verifier::external_body]
+    fn sel_keys<F: FnMut(&K, &V) -> bool>(cache: &CacheStore<K, V, S>, predicate: &mut F) -> (r: Vec<Rc<K>>)
+        ensures forall|k: KeyId| #[trigger] Self::in_prefix(r@, r@.len() as int, k) <==> (cache@.contains_key(k) && Self::pspec(*old(predicate), k, cache@[k].value)),
+    { unimplemented!() }
+
+//@@ FN file=src/unsync/cache.rs owner=Cache name=invalidate_entries_if tags=C07,C10,C01 rewrites=foreach2for,absexpr:keys_to_invalidate abs=Self::sel_keys(cache, &mut predicate) abs_sha=7688171599c0
+    pub fn invalidate_entries_if(&mut self, mut predicate: impl FnMut(&K, &V) -> bool)
+        requires old(self).wf(), old(self).small(), //@
+        ensures //@
+            final(self).cfg_ok(), final(self).same_cfg(old(self)), //@ [C17]
+            final(self).inv_struct(), //@ [C08,C11,C12]
+            final(self).inv_ts(), //@ [C05,C06]
+            final(self).inv_count(), //@ [C10]
+            final(self).inv_weight(), //@ [C10,C03,C04,C12]
+            final(self).frequency_sketch == old(self).frequency_sketch, final(self).frequency_sketch_enabled == old(self).frequency_sketch_enabled, final(self).weigher == old(self).weigher, //@ [C14,C15]
+            // C07: immediate and precise: exactly the entries the predicate holds for are gone (no housekeeping here) ...
+            forall|k: KeyId| #[trigger] final(self).cache@.contains_key(k) <==> (old(self).cache@.contains_key(k) && !Self::pspec(predicate, k, old(self).cache@[k].value)), //@ [C07,C01,C03]
+            // ... and every other entry is untouched: value, stamps, weight, recency order
+            forall|k: KeyId| #[trigger] final(self).cache@.contains_key(k) ==> final(self).cache@[k] == old(self).cache@[k], //@ [C07,C01,C03,C06]
+            ord_pres(old(self).deques.probation@, final(self).deques.probation@), //@ [C12,C07]
+    {
+        let ghost m0 = self.cache@; let ghost p0 = self.deques.probation@; let ghost ttl = self.time_to_live.is_some(); let ghost hx = self.sp_has_expiry(); //@
+        let ghost pred0 = predicate; //@
+        proof { lemma_wsum_bound(p0, m0); lemma_wsum_nonneg(p0, m0); lemma_ord_refl(p0); } //@
+        let Self { cache, deques, .. } = self;
+
+        // Since we can't do cache.iter() and cache.remove() at the same time,
+        // invalidation needs to run in two steps:
+        // 1. Examine all entries in this cache and collect keys to invalidate.
+        // 2. Remove entries for the keys.
+
+        let keys_to_invalidate = Self::sel_keys(cache, &mut predicate);
+        let ghost ks = keys_to_invalidate@; //@
+
+        let mut invalidated = 0u64;
+        let mut invalidated_count = 0u64;
+
+        for k in /*@+*/it:/*@-*/ keys_to_invalidate
+            invariant //@
+                it.snapshot@.remaining() == ks, it.index@ <= ks.len(), //@
+                deques.window@.len() == 0 && deques.protected@.len() == 0, //@
+                core_wf(cache@, deques.probation@, deques.write_order@, ttl), //@ [C08,C11,C12]
+                ts_wf(cache@, hx, ttl), //@ [C05,C06]
+                forall|k2: KeyId| #[trigger] cache@.contains_key(k2) ==> m0.contains_key(k2) && cache@[k2] == m0[k2], //@ [C07,C01]
+                forall|k2: KeyId| m0.contains_key(k2) ==> (#[trigger] cache@.contains_key(k2) <==> !Self::in_prefix(ks, it.index@, k2)), //@ [C07]
+                invalidated_count == p0.len() - deques.probation@.len(), //@ [C10]
+                invalidated == wsum(p0, m0) - wsum(deques.probation@, cache@), //@ [C10,C03,C04]
+                wsum(deques.probation@, cache@) >= 0, wsum(p0, m0) <= p0.len() * 0xFFFF_FFFF, p0.len() < 0xFFFF_FFFF, //@
+                ord_pres(p0, deques.probation@), //@ [C12]
+        {
+            proof { //@
+                let m = cache@; let p = deques.probation@; let wo = deques.write_order@; let j = it.index@; //@
+                let kk = kid_rc(k); //@
+                assert(ks[j] == k); //@
+                assert forall|k2: KeyId| Self::in_prefix(ks, j + 1, k2) <==> (Self::in_prefix(ks, j, k2) || k2 == kk) by { //@
+                    if Self::in_prefix(ks, j + 1, k2) { let w = choose|w: int| 0 <= w < j + 1 && w < ks.len() && kid_rc(#[trigger] ks[w]) == k2; if w < j { assert(kid_rc(ks[w]) == k2); } } //@
+                    if Self::in_prefix(ks, j, k2) { let w = choose|w: int| 0 <= w < j && w < ks.len() && kid_rc(#[trigger] ks[w]) == k2; assert(kid_rc(ks[w]) == k2 && w < j + 1); } //@
+                    if k2 == kk { assert(kid_rc(ks[j]) == k2); } //@
+                } //@
+                if m.contains_key(kk) { //@
+                    lemma_pos_of_key(m, p, wo, ttl, kk); //@
+                    let i = pos_of_key(p, kk); //@
+                    lemma_remove_at(m, p, wo, ttl, i); //@
+                    lemma_wsum_nonneg(p.remove(i), m.remove(kk)); //@
+                    lemma_ord_remove(p, i); lemma_ord_trans(p0, p, p.remove(i)); //@
+                } else { assert(m.remove(kk) =~= m); } //@
+            } //@
+            if let Some(mut entry) = cache.remove(&k) {
+                let weight = entry.policy_weight();
+                deques.unlink_ao(&mut entry);
+                Deques::unlink_wo(&mut deques.write_order, &mut entry);
+                invalidated = invalidated.saturating_add(weight as u64);
+                invalidated_count += 1;
+            }
+        }
+        proof { lemma_wsum_nonneg(self.deques.probation@, self.cache@); } //@
+        self.entry_count -= invalidated_count;
+        self.saturating_sub_from_total_weight(invalidated);
+    }
+//@@ END
+
 //@@ FN file=src/unsync/cache.rs owner=Cache name=saturating_add_to_total_weight tags=C10
     fn saturating_add_to_total_weight(&mut self, weight: u64)
         ensures final(self).weighted_size == if old(self).weighted_size + weight <= u64::MAX { (old(self).weighted_size + weight) as u64 } else { u64::MAX }, //@ [C10,C04]
@@ -2734,6 +2824,28 @@ pub proof fn lemma_c01_c07_invalidate_all<K, V>(post_m: Map<KeyId, ValueEntry<K,
     requires post_m == Map::<KeyId, ValueEntry<K, V>>::empty()
     ensures r_latest(post_m, Map::<KeyId, V>::empty()), forall|k: KeyId| !post_m.contains_key(k)
 { }
+
+/// C07 / C01, invalidation by predicate: exactly the bindings the predicate holds for leave the reference model, everything
+/// else stays retrievable with its value (the contract of `invalidate_entries_if`'s removal phase; its selection expression is
+/// the assumed `sel_keys`)
+pub proof fn lemma_c01_c07_invalidate_entries_if<K, V>(pre_m: Map<KeyId, ValueEntry<K, V>>, post_m: Map<KeyId, ValueEntry<K, V>>, hit: spec_fn(KeyId) -> bool, refm: Map<KeyId, V>, r2: Map<KeyId, V>)
+    requires r_latest(pre_m, refm),
+        // r2 = the reference model without the bindings the predicate holds for
+        forall|k: KeyId| #[trigger] r2.contains_key(k) <==> (refm.contains_key(k) && !hit(k)),
+        forall|k: KeyId| #[trigger] r2.contains_key(k) ==> r2[k] == refm[k],
+        forall|k: KeyId| #[trigger] post_m.contains_key(k) <==> (pre_m.contains_key(k) && !hit(k)),
+        forall|k: KeyId| #[trigger] post_m.contains_key(k) ==> post_m[k] == pre_m[k],
+    ensures r_latest(post_m, r2),
+        forall|k: KeyId| hit(k) ==> !post_m.contains_key(k),
+        forall|k: KeyId| !hit(k) && #[trigger] pre_m.contains_key(k) ==> post_m.contains_key(k) && post_m[k] == pre_m[k],
+{
+    assert forall|k: KeyId| #[trigger] post_m.contains_key(k) implies r2.contains_key(k) && post_m[k].value == r2[k] by {
+        assert(pre_m.contains_key(k) && !hit(k));
+        assert(refm.contains_key(k));
+    }
+    assert forall|k: KeyId| hit(k) implies !post_m.contains_key(k) by { if post_m.contains_key(k) { assert(!hit(k)); } }
+    assert forall|k: KeyId| !hit(k) && #[trigger] pre_m.contains_key(k) implies post_m.contains_key(k) && post_m[k] == pre_m[k] by { assert(post_m.contains_key(k)); }
+}
 
 /// C05: an entry whose last-modified stamp is `b` is not returned by a lookup at any reading `now` with b + ttl <= now
 pub proof fn lemma_c05_no_hit_after_ttl<K: Hash + Eq, V, S: BuildHasher + Clone>(c: Cache<K, V, S>, k: KeyId, now: Instant, b: Instant)
